@@ -812,6 +812,8 @@ def run_replica(sdir, reps, stage, e, infile, opts, src, wdir, stats, timeout=No
                     s.add(os.path.relpath(os.path.join(root, x), d))
         return s    # (/tmp is shared with the other workers: what is left there is C14's business, and C14 has a private one)
     files_before = listing()
+    stats_path = stats or os.path.join(real_wdir, "stats.run")
+    stats_before = os.path.getsize(stats_path) if os.path.exists(stats_path) else 0
     sk = e.get("stdout_kind", "pipe")
     so_path = os.path.join(real_wdir, "stdout.cap")
     SO_PREFIX = b"earlier text written through descriptor 1\n" * 3
@@ -825,7 +827,7 @@ def run_replica(sdir, reps, stage, e, infile, opts, src, wdir, stats, timeout=No
             so_arg.seek(len(SO_PREFIX))
     else:
         so_arg = subprocess.PIPE if sk == "pipe" else (open(so_path, "wb") if sk == "file" else open(os.devnull, "wb"))
-    po = subprocess.Popen(argv, cwd=wdir, env=env_vars(e, sdir, stats), stdin=stdin_arg, stdout=so_arg, stderr=subprocess.PIPE,
+    po = subprocess.Popen(argv, cwd=wdir, env=env_vars(e, sdir, stats_path), stdin=stdin_arg, stdout=so_arg, stderr=subprocess.PIPE,
                           start_new_session=True, pass_fds=extra_fds, preexec_fn=_child_setup(e, bigstack, from_stdin, records_cwd))
     if isinstance(stdin_arg, int) and stdin_arg >= 0 and from_stdin:
         os.close(stdin_arg)
@@ -854,7 +856,7 @@ def run_replica(sdir, reps, stage, e, infile, opts, src, wdir, stats, timeout=No
     # the assembler names its input, a temporary with a random name, in its own messages: not compiler output
     err = re.sub(rb"/tmp/chibicc-[A-Za-z0-9]{6}", b"/tmp/chibicc-TEMP", p.stderr)
     # files that came into being next to the input or in the working directory, other than the requested ones
-    newf = sorted(x for x in listing() - files_before if os.path.basename(x) not in ("out.bin", "out.d", "stats", "stdin.bin", "stdout.cap") and not x.endswith(".hardlink"))
+    newf = sorted(x for x in listing() - files_before if os.path.basename(x) not in ("out.bin", "out.d", "stats", "stats.run", "stdin.bin", "stdout.cap") and not x.endswith(".hardlink"))
     for x in newf:      # (and they go away again, so that the next run starts from the same directory)
         for d in (run_dir, os.path.dirname(infile)):
             q = os.path.join(d, x)
@@ -865,6 +867,17 @@ def run_replica(sdir, reps, stage, e, infile, opts, src, wdir, stats, timeout=No
                 pass
     newf = [re.sub(r"chibicc-[A-Za-z0-9]{6}", "chibicc-TEMP", x) for x in newf]
     res = {"status": p.returncode, "stdout": p.stdout, "stderr": err, "out": None, "dep": None, "newfiles": "\n".join(newf).encode()}
+    # did the compiler itself ask for an environment variable (the shim counts the answers it made up)?
+    asked = 0
+    try:
+        with open(stats_path) as fh:
+            fh.seek(stats_before)
+            for l in fh:
+                m_ = re.search(r"getenv_answered=(\d+)", l)
+                asked += int(m_.group(1)) if m_ else 0
+    except OSError:
+        pass
+    res["asked_env"] = asked
     old = (b"OLD CONTENT %d\n" % e["preexist"]) * (e["preexist"] // 14 + 1) if e.get("preexist", 0) > 0 else None
     old_dep = old
     if os.path.exists(out):
@@ -917,6 +930,10 @@ def evaluate(case, sdir, reps, src, wdir, stats=None):
             d = [k for k in d if k != "stderr"]     # with descriptor 2 closed the diagnostics are lost, legitimately; everything else must not care
         if x["stdout"] is None or y["stdout"] is None:
             d = [k for k in d if k != "stdout"]     # likewise what was sent to the null device
+        if case["e1"].get("envfuzz") != case["e2"].get("envfuzz") and (x.get("asked_env") or y.get("asked_env")):
+            # a compiler may let an environment variable of its own name a side file (a debug log, say): when the two runs got
+            # different answers to getenv(), the set of extra files is not compared -- everything the compilation produces still is
+            d = [k for k in d if k != "newfiles"]
         return d
     d = fields(ra, rb)
     if d and any(x["status"] == 1 and not x["stderr"] and x["out"] is None for x in (ra, rb)):
@@ -1119,7 +1136,7 @@ def fixpoint(sdir, reps, src, rep, stats):
         for a, b in ((1, 2), (2, 3)):
             if a not in outs or b not in outs:
                 continue
-            d = diff_fields(outs[a], outs[b])
+            d = [k for k in diff_fields(outs[a], outs[b]) if k != "newfiles" or not (outs[a].get("asked_env") or outs[b].get("asked_env"))]     # (each stage has an environment of its own here, getenv answers included)
             if d:
                 case = {"seed": 0, "input": os.path.relpath(f, src), "mutated": False, "mut_seed": 0, "opts": ["-S"], "a": a, "b": b, "e1": gen_env(r), "e2": gen_env(r)}
                 rp = save_replay(PROP, int(sha(f), 16), {"engine": "envsim", "property": PROP, "class": "fixpoint", "case": case})
